@@ -137,3 +137,13 @@ Proof.
   destruct (uhex c) as [v|]; [|discriminate].
   apply andb_true_iff in X as [X1 X2]. apply N.eqb_eq in X1. apply N.ltb_lt in X2. eauto.
 Qed.
+
+(** The character classes do not depend on the signedness of char: evaluated the other way
+    (unsigned char, as on ARM/PowerPC Linux) every table is the same.  On the unpatched
+    parselocalpart the quoted-text table differs: [*t >= 93] admits all bytes >= 128 inside
+    quotes where char is unsigned (fixes/C14-quoted-8bit-unsigned-char.diff). *)
+Lemma tables_sign_independent :
+  DV_CHAR_OK_ALT = DV_CHAR_OK /\ DV_LAST_OK_ALT = DV_LAST_OK /\ LP_UNQ_OK_ALT = LP_UNQ_OK
+  /\ LP_Q_OK_ALT = LP_Q_OK /\ LP_ESC_OK_ALT = LP_ESC_OK
+  /\ XT_RANGE_OK_ALT = XT_RANGE_OK /\ XT_HEX_OK_ALT = XT_HEX_OK /\ XT_PLAIN_OK_ALT = XT_PLAIN_OK.
+Proof. repeat split; vm_compute; reflexivity. Qed.
